@@ -1,6 +1,7 @@
 package kf
 
 import (
+	"github.com/prometheus/prometheus/model/labels"
 	"github.com/prometheus/prometheus/promql/parser"
 
 	"verifharness/core"
@@ -62,6 +63,30 @@ func init() {
 			return anyNode(agg.Param, func(m parser.Node, _ []parser.Node) bool {
 				vs, ok := m.(*parser.VectorSelector)
 				return ok && vs.Timestamp != nil
+			})
+		})
+	})
+	// KF-histogram-names: histogram_quantile over an argument whose selectors can match
+	// bucket series of more than one metric name (no equality matcher on __name__): the
+	// pinned Prometheus keeps histograms of different metrics apart (and then fails with
+	// "same labelset" when they only differ in the name), the engine merges their buckets.
+	Register("histogram-quantile-over-several-names", func(c *core.Case, expr parser.Expr) bool {
+		return anyNode(expr, func(n parser.Node, _ []parser.Node) bool {
+			call, ok := n.(*parser.Call)
+			if !ok || call.Func.Name != "histogram_quantile" || len(call.Args) != 2 {
+				return false
+			}
+			return anyNode(call.Args[1], func(m parser.Node, _ []parser.Node) bool {
+				vs, ok := m.(*parser.VectorSelector)
+				if !ok {
+					return false
+				}
+				for _, lm := range vs.LabelMatchers {
+					if lm.Name == "__name__" && lm.Type == labels.MatchEqual {
+						return false
+					}
+				}
+				return true
 			})
 		})
 	})
